@@ -354,6 +354,18 @@ class Proc(object):
                     stack.extend(n.children)
             out.sort()
             return out
+        if fn == 'delete_terminal':
+            root = s.env[args[0]]
+            leaf = None
+            stack = [root]
+            while stack:
+                n = stack.pop()
+                if not n.children and n.data.get('num') == args[1]:
+                    leaf = n
+                    break
+                stack.extend(n.children)
+            ret = R.trees.delete_terminal(root, leaf)
+            return {'ret': dump_tree(ret, s.reg), 'tree': dump_tree(root, s.reg)}
         if fn == 'disco_order':
             return [t.data['num'] for t in R.treeanalysis.disco_order(s.env[args[0]], args[1])]
         if fn == 'parse_label':
